@@ -7,6 +7,7 @@ import (
 	"github.com/AdguardTeam/urlfilter/rules"
 
 	"verifharness/internal/core"
+	"verifharness/internal/gen"
 	"verifharness/internal/util"
 )
 
@@ -20,6 +21,9 @@ var c15Hostnames = []string{
 	"a.co.uk", "b.a.co.uk", "evil.org", "unrelated.net", "org", "localhost",
 	"maps.example.com", "www.maps.example.co.uk", "xmaps.example.com", "maps.example.evil.org", "www.google.de", "b.a.org", "c.b.a.co.uk",
 }
+
+// c15CollidingSelectors is set per case: selectors with the same FastHash.
+var c15CollidingSelectors []string
 
 func c15Rule(c *core.Ctx) string {
 	exception := c.Rng.Intn(4) == 0
@@ -58,7 +62,12 @@ func c15Rule(c *core.Ctx) string {
 		marker = "#@#"
 	}
 
-	return strings.Join(doms, ",") + marker + c15Selectors[c.Rng.Intn(len(c15Selectors))]
+	sel := c15Selectors[c.Rng.Intn(len(c15Selectors))]
+	if len(c15CollidingSelectors) > 0 && c.Rng.Intn(2) == 0 {
+		sel = c15CollidingSelectors[c.Rng.Intn(len(c15CollidingSelectors))]
+	}
+
+	return strings.Join(doms, ",") + marker + sel
 }
 
 type c15Witness struct {
@@ -143,6 +152,16 @@ func c15Run(c *core.Ctx, idx int) {
 	}
 	n := 1 + c.Rng.Intn(10)
 	var list []string
+	c15CollidingSelectors = nil
+	if c.Rng.Intn(2) == 0 {
+		pre := []string{".ad-a", "#banner-a", ".sponsor-a", "div.x"}[c.Rng.Intn(4)]
+		if groups := gen.CollidingTails(pre); len(groups) > 0 {
+			for _, t := range groups[c.Rng.Intn(len(groups))] {
+				c15CollidingSelectors = append(c15CollidingSelectors, pre+t)
+			}
+			c.Event("lists_with_hash_colliding_selectors", 1)
+		}
+	}
 	for i := 0; i < n; i++ {
 		list = append(list, c15Rule(c))
 	}
